@@ -26,8 +26,9 @@ BUDGET = {'quick': 2400, 'thorough': 128000}
 
 PROFILE = {
     'weights': {'restart': 3, 'reboot': 3, 'down': 3, 'up': 3, 'resize': 2,
-                'idg': 2, 'rm': 3, 'renew': 3, 'adv': 3, 'prio': 4, 'rmlast': 3, 'downseq': 4, 'freezeflip': 1, 'rmsrvrace': 3},
-    'force': ['restart', 'downseq', 'rmsrvrace'],
+                'idg': 2, 'rm': 3, 'renew': 3, 'adv': 3, 'prio': 4, 'rmlast': 3, 'downseq': 4, 'freezeflip': 1, 'rmsrvrace': 3, 'priorm': 3,
+                'shrink': 2},
+    'force': ['restart', 'downseq', 'rmsrvrace', 'priorm'],
     'min_servers': 2,
 }
 
